@@ -593,27 +593,52 @@ func (w *World) reachable(entries []*ssa.Function, within func(*ssa.Function) bo
 
 // loopKind classifies a natural loop for the termination rule.
 func loopKind(fn *ssa.Function, l *Loop) (string, string) {
-	ifi, ok := l.Header.Instrs[len(l.Header.Instrs)-1].(*ssa.If)
-	if !ok {
-		// header does not branch: `for { ... }` — exits are elsewhere
-		return "", "loop header has no exit test (for { ... })"
+	// candidate exit tests: blocks of the loop that every iteration passes through (they dominate
+	// all latches) and that branch out of the loop
+	why := "no exit test that every iteration passes"
+	for _, b := range fn.Blocks {
+		if !l.Body[b] {
+			continue
+		}
+		ifi, ok := b.Instrs[len(b.Instrs)-1].(*ssa.If)
+		if !ok {
+			continue
+		}
+		exits := !l.Body[b.Succs[0]] || !l.Body[b.Succs[1]]
+		if !exits {
+			continue
+		}
+		domAll := true
+		for _, lt := range l.Latches {
+			if !(b == lt || b.Dominates(lt)) {
+				domAll = false
+			}
+		}
+		if !domAll {
+			continue
+		}
+		k, w := exitTestKind(l, ifi, !l.Body[b.Succs[1]])
+		if k != "" {
+			return k, ""
+		}
+		why = w
 	}
+	return "", why
+}
+
+// exitTestKind: stayOnTrue = the loop continues on the true edge.
+func exitTestKind(l *Loop, ifi *ssa.If, stayOnTrue bool) (string, string) {
 	// range over map/string: rangeok(next(range x))
 	if ex, ok := ifi.Cond.(*ssa.Extract); ok {
 		if nx, ok := ex.Tuple.(*ssa.Next); ok && ex.Index == 0 {
 			if rg, ok := nx.Iter.(*ssa.Range); ok {
 				if _, isMap := rg.X.Type().Underlying().(*types.Map); isMap {
-					// inserting into the ranged map inside the body could extend it
-					grown := false
 					for b := range l.Body {
 						for _, in := range b.Instrs {
 							if mu, ok := in.(*ssa.MapUpdate); ok && mu.Map == rg.X {
-								grown = true
+								return "", "the ranged map is inserted into inside the loop"
 							}
 						}
-					}
-					if grown {
-						return "", "the ranged map is inserted into inside the loop"
 					}
 				}
 				return "range", ""
@@ -621,30 +646,59 @@ func loopKind(fn *ssa.Function, l *Loop) (string, string) {
 		}
 	}
 	b, ok := ifi.Cond.(*ssa.BinOp)
-	if !ok || (b.Op != token.LSS && b.Op != token.LEQ) {
+	if !ok || (b.Op != token.LSS && b.Op != token.LEQ) || !stayOnTrue {
 		return "", "exit test is not `i < n`: " + Lit(ifi.Cond, true)
 	}
 	// bound must be loop-invariant
-	inv := true
 	var ins []ssa.Instruction
 	leafInstrs(b.Y, map[ssa.Value]bool{}, &ins)
-	for _, in := range ins {
-		if l.Body[in.Block()] {
-			if _, isPhi := in.(*ssa.Phi); isPhi {
-				inv = false
-			}
-			switch in.(type) {
-			case *ssa.Call, *ssa.UnOp, *ssa.Lookup:
-				// recomputed each iteration: accept len(x) of an invariant x
-				if c, ok := in.(*ssa.Call); ok && calleeName(c) == "len" {
-					continue
+	bodyCalls, storedFields := false, map[string]bool{}
+	for blk := range l.Body {
+		for _, in := range blk.Instrs {
+			switch v := in.(type) {
+			case *ssa.Call:
+				if _, isB := v.Call.Value.(*ssa.Builtin); !isB {
+					bodyCalls = true
 				}
-				inv = false
+			case *ssa.Store:
+				if fa, ok := v.Addr.(*ssa.FieldAddr); ok {
+					storedFields[fieldOfAddr(fa).Name()] = true
+				} else {
+					storedFields["*"] = true
+				}
 			}
 		}
 	}
-	if !inv {
-		return "", "loop bound is recomputed inside the loop: " + Term(b.Y)
+	for _, in := range ins {
+		if !l.Body[in.Block()] {
+			continue
+		}
+		switch v := in.(type) {
+		case *ssa.Phi:
+			return "", "loop bound varies with the loop: " + Term(b.Y)
+		case *ssa.Call:
+			if n := calleeName(v); n == "len" || n == "cap" {
+				continue
+			}
+			return "", "loop bound is recomputed by a call inside the loop: " + Term(b.Y)
+		case *ssa.UnOp:
+			if v.Op != token.MUL {
+				continue
+			}
+			// a load: invariant if nothing in the body can store to that field
+			if fa, ok := v.X.(*ssa.FieldAddr); ok {
+				if storedFields[fieldOfAddr(fa).Name()] || bodyCalls {
+					return "", "loop bound is reloaded inside the loop and the loop stores to that field (or calls out): " + Term(b.Y)
+				}
+				continue
+			}
+			if ia, ok := v.X.(*ssa.IndexAddr); ok {
+				_ = ia
+				return "", "loop bound is an element reloaded inside the loop: " + Term(b.Y)
+			}
+		case *ssa.Lookup:
+			return "", "loop bound is a map element reloaded inside the loop: " + Term(b.Y)
+		}
 	}
 	// induction variable: phi{c | phi+k} or (phi{-1|inc}+1)
 	var phi *ssa.Phi
